@@ -108,9 +108,11 @@ const (
 	reqLockFail
 	reqUnlock
 	reqSelect
+	reqWgWait
+	reqWgDone
 )
 
-var kindName = [...]string{"yield", "spawn", "exit", "maindone", "send", "recv", "close", "opdone", "idle", "nilchan", "lock", "unlock", "select"}
+var kindName = [...]string{"yield", "spawn", "exit", "maindone", "send", "recv", "close", "opdone", "idle", "nilchan", "lock", "unlock", "select", "wgwait", "wgdone"}
 
 type request struct {
 	kind  reqKind
@@ -589,6 +591,7 @@ func Lock(mu tryLocker, site int) {
 	for !mu.TryLock() {
 		lockFail(s, lockKey(mu), site)
 	}
+	acquired(s, site)
 }
 
 type tryRLocker interface {
@@ -606,6 +609,7 @@ func RLock(mu tryRLocker, site int) {
 	for !mu.TryRLock() {
 		lockFail(s, lockKey(mu), site)
 	}
+	acquired(s, site)
 }
 
 type unlocker interface{ Unlock() }
@@ -631,6 +635,21 @@ func RUnlock(mu runlocker, site int) {
 func lockKey(mu interface{}) uintptr {
 	type iface struct{ typ, data unsafe.Pointer }
 	return uintptr((*iface)(unsafe.Pointer(&mu)).data)
+}
+
+// acquired is a scheduling point right after a lock has been taken: the interesting
+// interleavings of lock-protected code are those in which another task runs while the lock is
+// held (a read lock shared by a second reader, a lock that protects too little), and the
+// detector can only report accesses inside two overlapping critical sections if they do overlap
+// in the serial execution - the atomics inside the mutex order non-overlapping sections.
+//
+//go:norace
+func acquired(s *Sim, site int) {
+	if s.aborted || s.nopreempt > 0 {
+		return
+	}
+	s.steps++
+	s.call(request{kind: reqYield, t: s.current, site: site})
 }
 
 //go:norace
@@ -721,6 +740,18 @@ func (s *Sim) handle(r request) {
 		// see, until nothing else can run: see schedule)
 		s.block(t, reqLockFail, r.ch, r.site)
 		s.schedule(nil, true)
+	case reqWgWait:
+		// disabled until the counter of that WaitGroup reaches zero
+		s.block(t, reqWgWait, r.ch, r.site)
+		s.schedule(nil, true)
+	case reqWgDone:
+		for _, p := range s.tasks {
+			if p.state == stBlocked && p.blockKind == reqWgWait && p.blockCh == r.ch {
+				p.state = stRunnable
+				p.wakeMode = modeProceed
+			}
+		}
+		s.schedule(t, false)
 	case reqUnlock:
 		for _, p := range s.tasks {
 			if p.state == stBlocked && p.blockKind == reqLockFail && p.blockCh == r.ch {
@@ -1274,33 +1305,72 @@ func selectReq(s *Sim, site int, hasDefault bool, reqs []selCaseReq) (int, int) 
 
 // sync.Pool is a source of nondeterminism of its own (per-P caches, emptied by the garbage
 // collector).  Inside a simulation a pool is a LIFO free list per pool: Get returns the most
-// recently Put object, or New() if there is none.  The hand-over from Put to Get goes through
-// a real mutex, which gives the race detector the same happens-before edge sync.Pool provides.
+// recently Put object, or New() if there is none.  The race detector is given exactly the
+// happens-before edge sync.Pool provides -- from the Put of an object to the Get that returns
+// that object -- and nothing more: the model's own mutex is hidden from it, otherwise every
+// pool operation would order the tasks that perform it and hide races elsewhere.
+
+type poolItem struct {
+	v   interface{}
+	tok byte // address the Put->Get edge is attached to
+}
+
+// (Slices searched linearly, not maps: the runtime's map functions report their accesses to the
+// race detector even from a norace function.)
+type poolEntry struct {
+	p     *sync.Pool
+	items []*poolItem
+}
 
 type poolModel struct {
 	mu    sync.Mutex
-	items map[*sync.Pool][]interface{}
+	pools []*poolEntry
 }
 
-var pools = &poolModel{items: map[*sync.Pool][]interface{}{}}
+var pools = &poolModel{}
+
+//go:norace
+func (m *poolModel) entry(p *sync.Pool) *poolEntry {
+	for _, e := range m.pools {
+		if e.p == p {
+			return e
+		}
+	}
+	e := &poolEntry{p: p}
+	m.pools = append(m.pools, e)
+	return e
+}
 
 // PoolGet replaces p.Get().
 func PoolGet(p *sync.Pool, site int) interface{} {
 	if getCur() == nil {
 		return p.Get()
 	}
+	it := poolPop(p)
+	if it != nil {
+		raceAcquire(unsafe.Pointer(&it.tok))
+		return it.v
+	}
+	if p.New != nil {
+		return p.New()
+	}
+	return nil
+}
+
+//go:norace
+func poolPop(p *sync.Pool) *poolItem {
+	raceDisable()
+	defer raceEnable()
 	pools.mu.Lock()
-	st := pools.items[p]
-	var v interface{}
-	if n := len(st); n > 0 {
-		v = st[n-1]
-		pools.items[p] = st[:n-1]
+	defer pools.mu.Unlock()
+	e := pools.entry(p)
+	n := len(e.items)
+	if n == 0 {
+		return nil
 	}
-	pools.mu.Unlock()
-	if v == nil && p.New != nil {
-		v = p.New()
-	}
-	return v
+	it := e.items[n-1]
+	e.items = e.items[:n-1]
+	return it
 }
 
 // PoolPut replaces p.Put(x).
@@ -1312,13 +1382,120 @@ func PoolPut(p *sync.Pool, x interface{}, site int) {
 	if x == nil {
 		return
 	}
+	it := &poolItem{v: x}
+	raceReleaseMerge(unsafe.Pointer(&it.tok))
+	poolPush(p, it)
+}
+
+//go:norace
+func poolPush(p *sync.Pool, it *poolItem) {
+	raceDisable()
+	defer raceEnable()
 	pools.mu.Lock()
-	pools.items[p] = append(pools.items[p], x)
+	e := pools.entry(p)
+	e.items = append(e.items, it)
 	pools.mu.Unlock()
 }
 
+//go:norace
 func resetPools() {
+	raceDisable()
+	defer raceEnable()
 	pools.mu.Lock()
-	pools.items = map[*sync.Pool][]interface{}{}
+	pools.pools = nil
 	pools.mu.Unlock()
+	wgModel.mu.Lock()
+	wgModel.e = nil
+	wgModel.mu.Unlock()
+}
+
+// ---- sync.WaitGroup ----------------------------------------------------------------------
+
+// A WaitGroup is modelled by a counter per WaitGroup address kept next to the real one: Wait
+// disables the task until the counter is zero (then the real Wait returns at once and gives the
+// race detector its happens-before edges), Add and Done update both.
+
+type wgEntry struct {
+	wg *sync.WaitGroup
+	n  int
+}
+
+var wgModel struct {
+	mu sync.Mutex
+	e  []wgEntry
+}
+
+// WgAdd replaces wg.Add(n).
+func WgAdd(wg *sync.WaitGroup, n int, site int) {
+	s := getCur()
+	if s != nil {
+		zero := wgCount(wg, n) <= 0
+		wg.Add(n)
+		if zero {
+			wgNotify(s, uintptr(unsafe.Pointer(wg)), site)
+		}
+		return
+	}
+	wg.Add(n)
+}
+
+// WgDone replaces wg.Done().
+func WgDone(wg *sync.WaitGroup, site int) { WgAdd(wg, -1, site) }
+
+// WgWait replaces wg.Wait().
+func WgWait(wg *sync.WaitGroup, site int) {
+	s := getCur()
+	if s == nil {
+		wg.Wait()
+		return
+	}
+	for wgCount(wg, 0) > 0 {
+		wgBlock(s, uintptr(unsafe.Pointer(wg)), site)
+	}
+	wg.Wait()
+}
+
+// wgCount adds d to the model counter of wg and returns it; the model's mutex is hidden from
+// the race detector (the real WaitGroup supplies the Done -> Wait edges).
+//
+//go:norace
+func wgCount(wg *sync.WaitGroup, d int) int {
+	raceDisable()
+	defer raceEnable()
+	wgModel.mu.Lock()
+	defer wgModel.mu.Unlock()
+	for i := range wgModel.e {
+		if wgModel.e[i].wg == wg {
+			wgModel.e[i].n += d
+			n := wgModel.e[i].n
+			if n == 0 {
+				last := len(wgModel.e) - 1
+				wgModel.e[i] = wgModel.e[last]
+				wgModel.e = wgModel.e[:last]
+			}
+			return n
+		}
+	}
+	if d != 0 {
+		wgModel.e = append(wgModel.e, wgEntry{wg, d})
+	}
+	return d
+}
+
+//go:norace
+func wgBlock(s *Sim, key uintptr, site int) {
+	if s.aborted {
+		panic(abortPanic{})
+	}
+	s.steps++
+	s.call(request{kind: reqWgWait, t: s.current, ch: key, site: site})
+}
+
+//go:norace
+func wgNotify(s *Sim, key uintptr, site int) {
+	if s.aborted {
+		return
+	}
+	s.steps++
+	s.call(request{kind: reqWgDone, t: s.current, ch: key, site: site})
 }
